@@ -94,3 +94,54 @@ func (v *VerifManifestFile) Tables() map[uint64]TableManifest {
 
 // Close closes the MANIFEST file.
 func (v *VerifManifestFile) Close() error { return v.mf.close() }
+
+// VerifLogEntry is one record delivered by logFile.iterate.
+type VerifLogEntry struct {
+	Key       []byte // internal key (with timestamp suffix)
+	Value     []byte
+	Meta      byte
+	UserMeta  byte
+	ExpiresAt uint64
+	Offset    uint32
+	VpFid     uint32
+	VpLen     uint32
+	VpOffset  uint32
+}
+
+// VerifIterateLog runs the production logFile.iterate over a WAL (.mem) or
+// value-log (.vlog) file of the directory described by opt and returns what it
+// delivers, the valid end offset, and the error. Nothing is written.
+func VerifIterateLog(path string, fid uint32, opt Options) ([]VerifLogEntry, uint32, error) {
+	reg, err := OpenKeyRegistry(KeyRegistryOptions{
+		ReadOnly:                      true,
+		Dir:                           opt.Dir,
+		EncryptionKey:                 opt.EncryptionKey,
+		EncryptionKeyRotationDuration: opt.EncryptionKeyRotationDuration,
+	})
+	if err != nil {
+		return nil, 0, err
+	}
+	defer reg.Close()
+	lf := &logFile{fid: fid, path: path, registry: reg, opt: opt}
+	if err := lf.open(path, os.O_RDONLY, 0); err != nil {
+		return nil, 0, err
+	}
+	defer lf.Close(-1)
+	var out []VerifLogEntry
+	end, err := lf.iterate(true, 0, func(e Entry, vp valuePointer) error {
+		out = append(out, VerifLogEntry{
+			Key: append([]byte{}, e.Key...), Value: append([]byte{}, e.Value...),
+			Meta: e.meta, UserMeta: e.UserMeta, ExpiresAt: e.ExpiresAt, Offset: e.offset,
+			VpFid: vp.Fid, VpLen: vp.Len, VpOffset: vp.Offset,
+		})
+		return nil
+	})
+	return out, end, err
+}
+
+// VerifDecodeValuePointer decodes an LSM value that carries bitValuePointer.
+func VerifDecodeValuePointer(b []byte) (fid, length, offset uint32) {
+	var vp valuePointer
+	vp.Decode(b)
+	return vp.Fid, vp.Len, vp.Offset
+}
